@@ -18,12 +18,12 @@ let rec nat_of_int (i : int) : nat = if i <= 0 then O else S (nat_of_int (i - 1)
 
 let open_res = function
   | "ok" -> LcOpenOk | "already" -> LcOpenAlready | "start" -> LcOpenErrStart | "ctx" -> LcOpenErrCtx
-  | "closed" -> LcOpenErrClosed | s -> failwith ("open class " ^ s)
+  | "closed" -> LcOpenErrClosed | "panic" | "hung" -> LcOpenErrStart | s -> failwith ("open class " ^ s)
 
 (* a Close that reports ErrCloseTimeout or another error still ran the whole teardown: the
    monitor treats it as a returned Close (the hygiene numbers decide) *)
 let close_res = function
-  | "ok" | "timeout" | "other" -> LcCloseOk | "notopen" -> LcCloseNotOpen | s -> failwith ("close class " ^ s)
+  | "ok" | "timeout" | "other" | "hung" | "panic" -> LcCloseOk | "notopen" -> LcCloseNotOpen | s -> failwith ("close class " ^ s)
 
 let rec parse toks acc =
   match toks with
@@ -37,9 +37,35 @@ let rec parse toks acc =
   | "RC" :: a :: b :: r -> parse r (LcObsReconnects (nat_of_int (int_of_string a), nat_of_int (int_of_string b)) :: acc)
   | t :: _ -> failwith ("token " ^ t)
 
+(* the model's answer for "a redundant Open while a reconnect loop is in flight": run the model to a
+   state with a loop sleeping between two failed dials, apply LcOpen, compare the whole state *)
+let model_redundant_open_changes_state (cold : bool) : bool =
+  let prefix =
+    if cold then [LcOpen LcBackground; LcOpen1; LcOpen2; LcOpen3; LcODial false; LcJoinStop1; LcJoinStop2; LcSenderExit;
+                  LcJoinFinish; LcOColdWait; LcOColdSpawn; LcLWait; LcLSleepDone; LcLFenceStep; LcLPublish; LcLSender;
+                  LcLDial false; LcJoinStop1; LcJoinStop2; LcSenderExit; LcJoinFinish; LcLFailWaited]
+    else [LcOpen LcBackground; LcOpen1; LcOpen2; LcOpen3; LcODial true; LcOGate; LcSupUpEcho; LcRecvExit true; LcSupDisc;
+          LcSupReact1; LcSupReact2; LcSupReact3; LcJoinStop1; LcJoinStop2; LcProcExit false; LcSenderExit; LcJoinFinish;
+          LcLWait; LcLSleepDone; LcLFenceStep; LcLPublish; LcLSender; LcLDial false; LcJoinStop1; LcJoinStop2; LcSenderExit;
+          LcJoinFinish; LcLFailWaited] in
+  match lifecycle_run (lifecycle_init true) prefix with
+  | None -> failwith "model trace not executable"
+  | Some s ->
+    if not s.lc_hasloop then failwith "model: no loop in flight";
+    (match lifecycle_exec s (LcOpen LcBackground) with
+     | Some s' -> s' <> s
+     | None -> failwith "model: Open not enabled")
+
 let check _ln line =
   let (lhs, rhs) = split_bar line in
   match split_ws lhs with
+  | "A" :: name :: [] ->
+    (match split_ws rhs with
+     | changed :: _ :: [] ->
+       let m = model_redundant_open_changes_state (name = "cold-peer") in
+       if m <> bool_of_string01 changed then Some "redundant Open: model and implementation disagree on whether the lifecycle fences change"
+       else None
+     | _ -> Some "bad A line")
   | "E" :: _ ->
     let obs = parse (split_ws rhs) [] in
     if ok_C10 obs then None else Some "monitor ok_C10 rejects the recorded log"
